@@ -746,7 +746,7 @@ func busyShard(t *testing.T, run *vt.Run, c vt.CaseID, rng *rand.Rand) {
 
 func TestC13Hooks(t *testing.T) {
 	run := vt.NewRun("C13", "exploration")
-	run.SetRule("hook-point scenarios (serial): a reader parked at ring.ShuffleShard[WithLookback].computed while an update of a random kind is installed, then released; an updater parked at ring.updateRingState.classified while readers populate the caches; afterwards every answer must equal a fresh client's.")
+	run.SetRule("hook-point scenarios (serial): a reader parked at ring.ShuffleShard[WithLookback].computed while an update of a random kind is installed, then released; an updater parked at ring.updateRingState.classified, or at ring.setRingStateFromDesc.computed (new indexes computed, not yet published), while readers populate the caches; afterwards every answer must equal a fresh client's.")
 	n := vt.N(400, 8000)
 	var hookHits atomic.Int64
 	for i := 0; i < n; i++ {
@@ -821,8 +821,9 @@ func TestC13Hooks(t *testing.T) {
 				close(gate)
 				<-done
 			default:
-				// hold the updater after classification; meanwhile readers fill the caches
-				armed.Store("ring.updateRingState.classified")
+				// hold the updater after classification, or after it has computed the new indexes and before it publishes
+				// them (with the caches flushed in that same critical section); meanwhile readers fill the caches
+				armed.Store([]string{"ring.updateRingState.classified", "ring.setRingStateFromDesc.computed"}[rng.IntN(2)])
 				time.Sleep(time.Millisecond)
 				updates = append(updates, h.mutate(time.Now().Unix()))
 				store.Put("harness", rk.Key, cloneDesc(h.desc))
